@@ -514,6 +514,58 @@ func runC05(c *mon.Ctx) {
 		c.DistinctBytes([]byte(fmt.Sprint("shape", i, len(long), nshort)))
 	})
 
+	// ---- shapes, second kind: thousands of tempo changes spread over several tracks (a tempo curve in every
+	// track, later tracks holding earlier ticks): the whole must cost about the sum of its tracks
+	c.Each("shape-tempo-tracks", c.N(3, 12), func(i int64, r *mon.Rand) {
+		ntr := r.Pick(2, 8, 16)
+		per := r.Pick(2500, 5000, 1200)
+		var tracks [][]ref.EncEv
+		for t := 0; t < ntr; t++ {
+			tr := make([]ref.EncEv, 0, per+1)
+			for k := 0; k < per; k++ {
+				f := uint32(300000 + (k*37+t*11)%400000)
+				d := uint32(1 + (k+t)%3)
+				if k == 0 {
+					d = uint32(ntr - t) // later tracks start earlier
+				}
+				tr = append(tr, ref.EncEv{Ev: ref.Ev{Delta: d, Msg: ref.Meta(0x51, []byte{byte(f >> 16), byte(f >> 8), byte(f)})}})
+			}
+			tracks = append(tracks, append(tr, ref.EncEv{Ev: ref.Ev{Delta: 0, Msg: ref.EOT}}))
+		}
+		measure := func(trs [][]ref.EncEv) (uint64, int, bool) {
+			b := (&ref.EncFile{Format: 1, Division: 96, NTracks: -1, Tracks: trs}).Bytes(nil)
+			runtime.GC()
+			runtime.ReadMemStats(&k.ms)
+			before := k.ms.TotalAlloc
+			s, err := smf.ReadFrom(bytes.NewReader(b))
+			runtime.ReadMemStats(&k.ms)
+			c.Count("alloc_measurements", 1)
+			return k.ms.TotalAlloc - before, len(b), err == nil && s != nil
+		}
+		in := map[string]any{"tracks": ntr, "tempo_changes_per_track": per}
+		c.CurPayload([]byte(fmt.Sprint(in)))
+		var sum uint64
+		for t := 0; t < ntr; t++ {
+			a, _, ok := measure(tracks[t : t+1])
+			if !ok {
+				c.Violation("big-file", "a valid file with a tempo track does not read", in, nil, nil)
+				return
+			}
+			sum += a
+		}
+		all, size, ok := measure(tracks)
+		if !ok {
+			c.Violation("big-file", "a valid multi-track file with tempo changes in every track does not read", in, nil, nil)
+			return
+		}
+		c.Count("shape_additivity_checks", 1)
+		c.MaxOf("max_alloc_whole_over_sum_of_parts", float64(all)/float64(sum))
+		if all > 2*sum+1<<20 {
+			c.Violation("alloc-shape", fmt.Sprintf("a file of %d bytes with %d tracks of %d tempo changes each allocates %d bytes; its tracks read one by one cost %d in total", size, ntr, per, all, sum), in, fmt.Sprintf("about %d", sum), all)
+		}
+		c.DistinctBytes([]byte(fmt.Sprint("tempo-shape", i, ntr, per)))
+	})
+
 	// ---- independent reads from 8 goroutines at once: the prefix relation must hold all the same
 	c.Each("concurrent-truncations", c.N(8, 100), func(i int64, r *mon.Rand) {
 		type job struct {
